@@ -132,7 +132,7 @@ class TlcResult:
 
 
 def run_tlc(module, cfg_kwargs, *, workers=16, simulate=None, depth=None, seed=None, coverage=False,
-            env=None, timeout=3600, spec_dir=SPEC_DIR, extra_modules=(), keep=False, dfs=False, heap="8g",
+            env=None, timeout=3600, spec_dir=SPEC_DIR, extra_files=None, keep=False, dfs=False, heap="8g",
             fp=None):
     """Run TLC on spec/<module>.tla in a scratch copy of the spec directory.
 
@@ -143,6 +143,9 @@ def run_tlc(module, cfg_kwargs, *, workers=16, simulate=None, depth=None, seed=N
         for f in os.listdir(spec_dir):
             if f.endswith(".tla"):
                 shutil.copy(os.path.join(spec_dir, f), work)
+        for fname, content in (extra_files or {}).items():      # generated modules (instance tables)
+            with open(os.path.join(work, fname), "w") as f:
+                f.write(content)
         cfg = os.path.join(work, module + ".cfg")
         write_cfg(cfg, **cfg_kwargs)
         cmd = ["java", "-XX:+UseParallelGC", "-Xmx" + heap]
@@ -212,7 +215,8 @@ def run_tlc(module, cfg_kwargs, *, workers=16, simulate=None, depth=None, seed=N
         finished = ("Model checking completed. No error has been found." in out) or \
                    (simulate is not None and ("Finished in" in out or "simulation" in out.lower()))
         if not r.violated and not finished:
-            raise TlcError("TLC did not complete (%s):\n%s\n%s" % (module, out[-3000:], p.stderr[-1000:]))
+            first = out.find("Error:")
+            raise TlcError("TLC did not complete (%s):\n%s\n...\n%s\n%s" % (module, out[max(0, first - 300):first + 1500] if first >= 0 else "", out[-1500:], p.stderr[-1000:]))
         if "Error:" in out and not r.violated:
             raise TlcError("TLC reported an error (%s):\n%s" % (module, out[-3000:]))
         r.ok = r.violated is None
